@@ -114,6 +114,11 @@ EXTRA4 = {
  "C15": " Every transported frame is also used to reset a fresh store (as decoded, and from a decoded slice with room to grow); the frame read back from that store and re-encoded must still hash to the block's frame hash. Histories with healing partitions and lagging validators add frames of many events.",
  "C16": " Sparse look-ups of events by hash and by creator/index before they are written (as the node's parent checks and wire decoding do) must fail, and the same keys must be readable later, after the item has left the in-memory window.",
  "C19": " A third of the additions in the edit sequences name the validator under the lower-case spelling of its key.",
+ "C02": " Six histories per run in which validators reset their running hashgraph in place from the peer with the oldest anchor (usually below their own last block) while a validator lags.",
+ "C05": " An eighth of the histories inject transient frame-write failures while decided rounds are turned into blocks.",
+ "C08": " The concurrent phase also delivers two join requests four times each, byte for byte, over different connections.",
+ "C17": " Three live cases per run watch validators started without gossip (Run(false)) while a validator that never gives up pushes events at them.",
+ "C20": " Three cases per run submit through the socket proxy while nothing is taken from the node-side channel for 3-4 proxy timeouts: every call that reported success must be a transaction that arrives once the channel has been drained to quiescence.",
 }
 for k, v in EXTRA4.items():
     EXTRA_TEXT[k] = EXTRA_TEXT.get(k, "") + v
